@@ -34,14 +34,18 @@ import (
 
 // ------------------------------------------------------------------ alphabets
 
-var methods = []string{"GET", "POST", "PUT", "PATCH", "DELETE", "HEAD", "OPTIONS"}
+var methods = []string{"GET", "POST", "PUT", "PATCH", "DELETE", "HEAD", "OPTIONS", "PROPFIND"}
 
 var paths = []string{
 	"/api/v1/pods", "/api/v1/namespaces/a%20b/pods/x", "/api/v1/namespaces/a%2Fb/pods", "/apis/apps/v1/deployments/", "/api//v1", "/healthz",
 	"/api/v1/%E4%BD%A0", "/", "/api/v1/namespaces/ns/pods/p/log", "/api/v1/namespaces/a+b/pods", "/apis/x.io/v1/things/a%3Fb", "/api/v1/namespaces/ns/configmaps/a%25b",
+	// escapes that look like other escapes or like separators once decoded; lower-case hex digits; very long; well-known non-resource paths
+	"/api/v1/namespaces/a%252Fb/pods", "/api/v1/namespaces/a%2fb/pods", "/api/v1/namespaces/ns/pods/x%23y", "/api/v1/namespaces/ns/pods/a;b=c", "/api/v1/namespaces/ns/pods/a:b@c",
+	"/version", "/openapi/v2", "/apis", "/api/v1/namespaces/ns/pods/p/exec", "/api/v1/namespaces/ns/services/https:svc:443/proxy/a%2Fb/c", "/api/v1/namespaces/" + strings.Repeat("n", 3000) + "/pods",
 }
 
-var queries = []string{"", "a=1&b=2", "b=2&a=1&a=3", "a=%20+x", "a=", "a", "watch=true&timeoutSeconds=5", "labelSelector=app%3Dx%2Cy+in+%28a%2Cb%29", "a=%26%3D&b=%E4%BD%A0", "a=1;b=2", "%zz=1"}
+var queries = []string{"", "a=1&b=2", "b=2&a=1&a=3", "a=%20+x", "a=", "a", "watch=true&timeoutSeconds=5", "labelSelector=app%3Dx%2Cy+in+%28a%2Cb%29", "a=%26%3D&b=%E4%BD%A0", "a=1;b=2", "%zz=1",
+	"a=1&a=2&a=1", "a=b=c", "a=%2B%2b+", "pretty=true&dryRun=All", "timeout=5s", "fieldSelector=metadata.name%3Dx&limit=500&continue=abc%3D%3D", "a=%00", "a=" + strings.Repeat("v", 5000)}
 
 type hdr struct {
 	name string
@@ -58,6 +62,12 @@ var reqHeaders = []hdr{
 	{"user-agent", http.Header{"User-Agent": {"kubectl/v1.18 (linux)"}}},
 	{"odd-values", http.Header{"X-Empty": {""}, "X-Utf8": {"café"}, "X-Long": {strings.Repeat("v", 4096)}}},
 	{"cookie+if-none-match", http.Header{"Cookie": {"a=b; c=d"}, "If-None-Match": {`"etag"`}, "Accept-Encoding": {"identity"}}},
+	// names that are NOT credential / impersonation / hop-by-hop headers but look like them: end-to-end, must arrive
+	{"near-miss-names", http.Header{"X-Impersonate-User": {"u"}, "Impersonatex-User": {"u"}, "Impersonate": {"u"}, "X-Authorization": {"Bearer x"}, "Authorizationx": {"y"}, "Proxy-Connectionx": {"z"}, "X-Upgrade": {"w"}, "Keep-Alivex": {"k"}}},
+	{"xff-two-lines", http.Header{"X-Forwarded-For": {"1.1.1.1, 2.2.2.2", "3.3.3.3"}}},
+	{"conditional+range", http.Header{"If-Match": {`"a", "b"`}, "Range": {"bytes=0-9"}, "If-Modified-Since": {"Mon, 02 Jan 2006 15:04:05 GMT"}}},
+	{"x-forwarded-others", http.Header{"X-Forwarded-Proto": {"https"}, "X-Forwarded-Host": {"orig.example.com"}, "Forwarded": {"for=9.9.9.9"}, "X-Real-Ip": {"9.9.9.9"}}},
+	{"connection-two-listed", http.Header{"Connection": {"X-Hop-A, x-hop-b", "close"}, "X-Hop-A": {"1"}, "X-Hop-B": {"2"}, "X-Stays": {"3"}}},
 }
 
 type body struct {
@@ -69,9 +79,12 @@ type body struct {
 var bodies = []body{
 	{"empty", nil, false}, {"1B", []byte("x"), false}, {"65537B", bytes.Repeat([]byte("ab0"), 21846)[:65537], false},
 	{"1MiB", bytes.Repeat([]byte("0123456789abcdef"), 65536), false}, {"chunked-unknown-length", []byte("streamed body of unknown length"), true},
+	// sizes around the buffers that sit on the path (1 KiB, 2 KiB, 4 KiB, 32 KiB copies) and bytes that are not text
+	{"1024B", bytes.Repeat([]byte("k"), 1024), false}, {"1025B", bytes.Repeat([]byte("k"), 1025), false}, {"2049B", bytes.Repeat([]byte("k"), 2049), false}, {"4097B", bytes.Repeat([]byte("k"), 4097), false},
+	{"32769B", bytes.Repeat([]byte("k"), 32769), false}, {"binary", []byte{0, 1, 2, 0xff, 0xfe, 0x80, '\r', '\n', 0, '\n'}, false}, {"chunked-100KiB", bytes.Repeat([]byte("c"), 100<<10), true},
 }
 
-var statuses = []int{200, 201, 204, 301, 400, 404, 409, 429, 500, 503}
+var statuses = []int{200, 201, 202, 204, 206, 301, 304, 400, 401, 403, 404, 409, 410, 422, 429, 500, 501, 502, 503, 504}
 
 var respHeaders = []hdr{
 	{"ctype", http.Header{"Content-Type": {"application/json"}}},
@@ -81,6 +94,9 @@ var respHeaders = []hdr{
 	{"connection-listed-hop", http.Header{"Connection": {"X-Rhop"}, "X-Rhop": {"secret"}, "Content-Type": {"application/json"}}},
 	{"location+retry-after", http.Header{"Location": {"/elsewhere?x=1"}, "Retry-After": {"7"}}},
 	{"audit+custom", http.Header{"Audit-Id": {"abc"}, "X-Kubernetes-Pf-Flowschema-Uid": {"u"}, "Content-Type": {"application/vnd.kubernetes.protobuf"}}},
+	{"www-authenticate+near-miss", http.Header{"Www-Authenticate": {`Basic realm="x"`, "Bearer"}, "X-Connection": {"keep"}, "Upgradex": {"u"}, "Content-Type": {"text/plain"}}},
+	{"none", http.Header{}},
+	{"connection-two-listed", http.Header{"Connection": {"X-Ra, x-rb"}, "X-Ra": {"1"}, "X-Rb": {"2"}, "X-Rstays": {"3"}, "Content-Type": {"application/json"}}},
 }
 
 type rbody struct {
@@ -92,6 +108,17 @@ var respBodies = []rbody{
 	{"empty", nil}, {"small", [][]byte{[]byte(`{"kind":"PodList","items":[]}`)}}, {"1MiB", [][]byte{bytes.Repeat([]byte("fedcba9876543210"), 65536)}},
 	{"3-flushed-chunks", [][]byte{[]byte(`{"type":"ADDED"}` + "\n"), []byte(`{"type":"MODIFIED"}` + "\n"), []byte(`{"type":"DELETED"}` + "\n")}},
 	{"5xx-sized-4KiB", [][]byte{bytes.Repeat([]byte("E"), 4096)}},
+	{"1023B", [][]byte{bytes.Repeat([]byte("r"), 1023)}}, {"1024B", [][]byte{bytes.Repeat([]byte("r"), 1024)}}, {"1025B", [][]byte{bytes.Repeat([]byte("r"), 1025)}},
+	{"2048B", [][]byte{bytes.Repeat([]byte("r"), 2048)}}, {"2049B", [][]byte{bytes.Repeat([]byte("r"), 2049)}}, {"32769B", [][]byte{bytes.Repeat([]byte("r"), 32769)}},
+	{"binary", [][]byte{{0, 1, 2, 0xff, 0xfe, 0x80, '\r', '\n', 0, '\n'}}},
+	{"small-then-large-chunk", [][]byte{[]byte("head\n"), bytes.Repeat([]byte("L"), 5000)}},
+	{"200-tiny-chunks", func() [][]byte {
+		var out [][]byte
+		for i := 0; i < 200; i++ {
+			out = append(out, []byte(fmt.Sprintf("%03d|", i)))
+		}
+		return out
+	}()},
 }
 
 // ------------------------------------------------------------------ rig
@@ -193,8 +220,8 @@ func requestCase(c *ev.Check, w *world, m, p, q string, h hdr, b body) {
 		}
 	}
 	wantXFF := "127.0.0.1"
-	if prior := h.h.Get("X-Forwarded-For"); prior != "" {
-		wantXFF = prior + ", 127.0.0.1"
+	if prior := h.h.Values("X-Forwarded-For"); len(prior) > 0 {
+		wantXFF = strings.Join(prior, ", ") + ", 127.0.0.1" // several header lines are one list
 	}
 	if g.Header.Get("X-Forwarded-For") != wantXFF {
 		viol("x-forwarded-for", "X-Forwarded-For is %q, expected %q", g.Header.Get("X-Forwarded-For"), wantXFF)
@@ -263,6 +290,9 @@ func responseCase(c *ev.Check, w *world, st int, h hdr, b rbody, m string) {
 			continue
 		}
 		have := resp.Header[k]
+		if st == 304 && k == "Content-Type" {
+			continue // the stub upstream (net/http server) itself suppresses it on 304: it was never sent
+		}
 		if k == "Cache-Control" {
 			// the gateway's WithCacheControl default must not displace the upstream's value
 			if !contains(have, vs[0]) {
@@ -672,6 +702,19 @@ func main() {
 			}
 		}})
 	}
+	// full product inside {method, headers, body} (both tiers)
+	for _, m := range methods {
+		m := m
+		tasks = append(tasks, ev.Task{Name: "request-header-body-product-" + m, Run: func() {
+			w := newWorld()
+			defer w.close()
+			for _, h := range reqHeaders {
+				for _, b := range bodies {
+					requestCase(c, w, m, paths[2], queries[2], h, bodyFor(m, b))
+				}
+			}
+		}})
+	}
 	// response side
 	tasks = append(tasks, ev.Task{Name: "response-dimensions", Run: func() {
 		w := newWorld()
@@ -722,7 +765,7 @@ func main() {
 }
 
 func bodyFor(m string, b body) body {
-	if m == "GET" || m == "HEAD" || m == "OPTIONS" || m == "DELETE" {
+	if m == "GET" || m == "HEAD" || m == "OPTIONS" { // DELETE carries DeleteOptions in Kubernetes: it keeps its body
 		return bodies[0]
 	}
 	return b
